@@ -200,8 +200,9 @@ func blocks(thorough bool) []blockDesc {
 		}
 	}
 	// graph: every call graph x every single-kind root assignment, direct and indirect call sites
-	maxN := 3
-	for n := 1; n <= maxN; n++ {
+	// (n <= 2 first, the small families next, the n = 3 sweep last: if a deadline cuts the run,
+	// every family has been seen)
+	for n := 1; n <= 2; n++ {
 		for k := 0; k <= 1; k++ {
 			add("graph", n, k, false, rootsSingle)
 		}
@@ -241,6 +242,9 @@ func blocks(thorough bool) []blockDesc {
 			add("anon", n, k, false, rootsSingle)
 			add("tableops", n, k, false, rootsSingle)
 		}
+	}
+	for k := 0; k <= 1; k++ {
+		add("graph", 3, k, false, rootsSingle)
 	}
 	if thorough {
 		add("graph", 4, 0, false, rootsSingle)
